@@ -608,6 +608,9 @@ func renderRequest(c *ClientReq) *RenderedReq {
 			}
 		}
 	}
+	if c.HTTPMethod != "" && c.Form != FormREST && c.Form != FormRaw {
+		r.Method = c.HTTPMethod // hostile / rejection-class requests
+	}
 	if c.RawBody != nil {
 		r.Body = c.RawBody
 		r.HasBody = true
